@@ -11,7 +11,7 @@ CONSTANTS
   InitSets <- None
   MaxMsgs = 1
   MaxLen = 3
-  Dev <- AllDev
-  Store = "dict"
+  AllOpen <- AllKnown
+  Stores = {"dict", "pp", "fs"}
 INVARIANT TypeOK
 CHECK_DEADLOCK FALSE
